@@ -36,6 +36,7 @@ CONFIGS = {
     "asan": {"variant": "asan", "imports": IMPORTS, "timeout_ms": 180000},
 }
 PRELUDE = st.SCHEME_PRELUDE + r"""
+(define (cons* x . r) (if (null? r) x (cons x (apply cons* r))))
 (define (to-text writer x) (let ((o (open-output-string))) (writer x o) (get-output-string o)))
 (define (first-diff x y d)
   (cond ((> d 60) #f)
@@ -116,6 +117,10 @@ def gen_tree(rng, depth, safe=False):
         if k <= 2:
             return gen_number_expr(rng, safe)
         if k == 3:
+            # a character datum has its own external syntax (names, hex forms of 1-6 digits): class edges get half of the draws
+            if rng.chance(1, 2):
+                return "(integer->char %d)" % rng.choice([0x0, 0x7, 0x8, 0x9, 0xa, 0xd, 0x1b, 0x1f, 0x20, 0x7e, 0x7f, 0x80, 0xa0, 0xff, 0x100, 0x7ff, 0x800, 0xfff, 0x1000,
+                                                          0xd7ff, 0xe000, 0xfffd, 0xfffe, 0xffff, 0x10000, 0x10001, 0xfffff, 0x100000, 0x10fffe, 0x10ffff])
             return "(integer->char %d)" % gen_scalar_cp(rng)
         if k == 4:
             return gen_string_expr(rng)
@@ -280,9 +285,10 @@ def execute(case, run):
         return oc
     ws = wres["steps"]
     if ws[1]["exc"]:
-        # the constructor itself failed (e.g. an unsupported numeric form): a generator matter, not a verdict
-        oc.trace = "constructor-error"
-        oc.verdicts = []
+        # the expression that builds the datum uses nothing but standard constructors: if it fails, either the tree or the generator
+        # is wrong, and both must be looked at (for a long time this was counted as "nothing to judge", which hid a generator slip
+        # -- an undefined cons* -- that voided a third of the cases)
+        V.append(Verdict("constructor-error", "building the datum failed: %s; expression %s" % (ws[1]["res"][:200], case["expr"][:200]), {}))
         return oc
     if ws[2]["exc"]:
         V.append(Verdict("write-error", "writer %s raised on a string port: %s" % (case["writer"], ws[2]["res"][:200]), {"writer": case["writer"]}))
